@@ -87,6 +87,9 @@ Check(e) ==
       [] e.op = "u8_codecs" -> U8OK(e)
       [] e.op = "dr7_codec" -> Dr7OK(e)
       [] e.op = "dr7_from_bits" -> Dr7FromBitsOK(e)
+      [] e.op = "dr7_flagops" ->
+            /\ e.got = << XorW(e.v, e.f), OrW(e.v, e.f), AndW(e.v, NotW(e.f)), OrW(e.v, e.f), AndW(e.v, NotW(e.f)) >>
+            /\ e.unchecked = e.x
       [] e.op = "selerr_block" -> SelErrBlockOK(e)
       [] e.op = "selerr_wide" -> SelErrWideOK(e)
       [] e.op = "const_end" ->
